@@ -43,7 +43,7 @@ LEVEL_NOTE = (
     "Differential oracle (implementation against itself), so it cannot be stricter than the code; covers constructs "
     "and literals of the stated grammar only; non-idempotence of the text itself is not flagged."
 )
-TECHNIQUE = "bounded-exhaustive enumeration of programs x data with a round-trip differential oracle (str->parse x3, pickle)"
+TECHNIQUE = "bounded-exhaustive enumeration of programs x data with a round-trip differential oracle (str->parse x3, pickle) and re-observation of the serialised object (render after str, second str)"
 ASSUMPTIONS = ["programs outside the generated grammar are not covered", "render outcome = output text or error class"]
 
 _STATE: dict[str, Any] = {}
